@@ -379,6 +379,8 @@ impl Prop for C15 {
                     py.verif_py_ppdnev_single_dual2(Number::Dual2(xd2.clone()), mm).ok(),
                     py.verif_py_ppev_single_dual(Number::F64(xd.real())).ok(),
                     py.verif_py_ppev_single_dual2(Number::F64(xd.real())).ok(),
+                    py.verif_py_ppdnev_single_dual(Number::F64(xd.real()), mm).ok(),
+                    py.verif_py_ppdnev_single_dual2(Number::F64(xd.real()), mm).ok(),
                 );
                 (solved, shape, mm, ev, arr0, arrm, refusals, typed, xd, xd2)
             });
@@ -416,6 +418,8 @@ impl Prop for C15 {
                                 || !d2_ok(&typed.3, sp.ppdnev_single_dual2(&xd2, mm))
                                 || !d_ok(&typed.4, sp.ppdnev_single_dual(&Dual::new(xd.real(), vec![]), 0))
                                 || !d2_ok(&typed.5, sp.ppdnev_single_dual2(&Dual2::new(xd2.real(), vec![]), 0))
+                                || !d_ok(&typed.6, sp.ppdnev_single_dual(&Dual::new(xd.real(), vec![]), mm))
+                                || !d2_ok(&typed.7, sp.ppdnev_single_dual2(&Dual2::new(xd2.real(), vec![]), mm))
                             {
                                 bad = Some("typed evaluators (ppev_single_dual / ppdnev_single_dual / ..dual2) differ from the core".into());
                             }
